@@ -122,6 +122,36 @@ def issuedOf : List Ev → List Issued
   | .issued i :: es => i :: issuedOf es
   | .wire _ :: es => issuedOf es
 
+/-! ### `DuplexConn::send_hello`
+
+The Hello call is sent with a fresh serial; the NEXT message that arrives is taken as its answer: it is accepted only
+if its reply serial is that serial (whatever else it is), and then its body must start with a string, the unique name. -/
+
+/-- what arrives after the Hello was sent -/
+structure Arrival where
+  replySerial : Option Nat
+  /-- the body's first value is a string, and which -/
+  bodyString : Option (List Char)
+  deriving Repr, DecidableEq
+
+inductive HelloRes
+  | name (n : List Char)
+  /-- `Error::AuthFailed`: the message is not the answer to the Hello -/
+  | notTheAnswer
+  /-- the answer carries no string -/
+  | badBody
+  deriving Repr, DecidableEq
+
+/-- returns the serial the Hello was sent with, the outcome, the connection; `none` = serial overflow panic -/
+def sendHello (c : Conn) (a : Arrival) : Option (Nat × HelloRes × Conn) :=
+  match allocSerial c with
+  | none => none
+  | some (s, c') =>
+    if a.replySerial ≠ some s then some (s, .notTheAnswer, c')
+    else match a.bodyString with
+      | some n => some (s, .name n, c')
+      | none => some (s, .badBody, c')
+
 /-- the part of a header the reply constructors look at / set -/
 structure Hdr where
   serial : Option Nat
